@@ -458,7 +458,7 @@ func main() {
 		rounds = 400
 	}
 	for _, engine := range engines {
-		c.Emit(map[string]any{"kind": "soak", "engine": engine, "impl": soak(engine, rounds, 4, 8)})
+		c.Emit(map[string]any{"kind": "soak", "engine": engine, "impl": soak1(engine, rounds, 4, 8)})
 		c.Count("soak." + engine)
 	}
 	c.Close(map[string]any{"exhaustive": false, "flaky_not_reproduced": flaky, "harness_wall_s": time.Since(t0).Seconds(),
